@@ -35,6 +35,9 @@ class Mesh3D(Mesh):
     def boundary_edges(self) -> ndarray:
         """Return an array of boundary edge indices."""
         facets = self.boundary_facets()
+        if len(facets) == 0:
+            # no boundary, e.g., a periodic mesh
+            return np.zeros(0, dtype=np.int32)
         boundary_edges = np.sort(np.hstack(
             tuple([np.vstack((self.facets[itr, facets],
                               self.facets[(itr + 1) % self.facets.shape[0],
